@@ -1,3 +1,4 @@
+#include <algorithm>
 // Positive fixtures: constructs the zero-expected rules must keep matching (pushed through the same extractor).
 #include "OP2Utility.h"
 #include <vector>
@@ -82,6 +83,26 @@ inline std::string MarkerText(Stream::Reader& reader) {
 	std::array<char, 10> marker;
 	reader.Read(marker);
 	return std::string(marker.data());
+}
+
+// R-TAINT (clamp): the announced size is silently cut down to what the stream has left, so a truncated file is accepted
+inline std::vector<uint8_t> ReadClamped(Stream::BidirectionalReader& reader, uint32_t announced) {
+	const uint64_t remaining = reader.Length() - reader.Position();
+	std::vector<uint8_t> data(static_cast<std::size_t>(std::min<uint64_t>(announced, remaining)));
+	reader.Read(data);
+	return data;
+}
+
+// R-TAINT (npos): the position find() reports is used in arithmetic without excluding "not found"
+inline std::vector<std::string> SplitNames(const std::string& table) {
+	std::vector<std::string> names;
+	std::size_t start = 0;
+	while (start < table.size()) {
+		const auto end = table.find('\0', start);
+		names.push_back(table.substr(start, end - start));
+		start = end + 1;
+	}
+	return names;
 }
 
 // R-ERR (discarded exception): the exception object is built but never thrown
